@@ -47,6 +47,29 @@ fn run(names: &str, op: &str, target: &str) -> Option<String> {
 }
 
 /// every string constructor of AsciiString: Ok iff the input is ASCII, and then the same text
+/// "the header list a handler sees is the list the client sent, in order, minus the framing fields the library consumes":
+/// the real read_http_request on whole field lines; the list handed on is the list sent without every Content-Type, Expect and
+/// Transfer-Encoding field (any case, any value, however many)
+fn handlerlist(lines: &[&str]) -> Option<String> {
+    use verif_replay::{block_on, ScriptReader, Step};
+    let desc = format!("handlerlist lines={}", lines.iter().map(|l| l.bytes().map(|b| format!("{b:02x}")).collect::<String>()).collect::<Vec<_>>().join(","));
+    let mut msg = b"POST / HTTP/1.1\r\n".to_vec();
+    for l in lines { msg.extend_from_slice(l.as_bytes()); msg.extend_from_slice(b"\r\n"); }
+    msg.extend_from_slice(b"\r\n");
+    let want: Vec<(String, String)> = lines.iter().map(|l| { let (n, v) = l.split_once(':').unwrap(); (n.to_string(), v.trim_matches(|c| c == ' ' || c == '\t').to_string()) })
+        .filter(|(n, _)| !["content-type", "expect", "transfer-encoding"].contains(&n.to_ascii_lowercase().as_str())).collect();
+    let r = std::panic::catch_unwind(|| {
+        let mut buf: fixed_buffer::FixedBuf<4096> = fixed_buffer::FixedBuf::new();
+        let mut rd = ScriptReader::new(vec![Step::Data(msg.clone()), Step::Eof]);
+        block_on(servlin::internal::read_http_request("127.0.0.1:1".parse().unwrap(), &mut buf, &mut rd))
+            .map(|r| r.headers.iter().map(|h| (h.name.as_str().to_string(), h.value.as_str().to_string())).collect::<Vec<_>>())
+    });
+    match r {
+        Err(_) => Some(format!("{desc} expected=no-panic actual=panic")),
+        Ok(Err(_)) => None,   // a refused request reaches no handler
+        Ok(Ok(got)) => if got == want { None } else { Some(format!("{desc} expected=handler sees {want:?} actual={got:?}")) },
+    }
+}
 fn check_ctors() -> (u64, Vec<String>) {
     use std::borrow::Cow;
     let mut n = 0u64; let mut found = Vec::new();
@@ -82,6 +105,11 @@ fn main() {
     if args.len() >= 3 && args[1] == "replay" {
         let w = args[2..].join(" ");
         let get = |k: &str| w.split(&format!("{k}=")).nth(1).map(|s| s.split(' ').next().unwrap_or("").to_string()).unwrap_or_default();
+        if w.starts_with("handlerlist") {
+            let ls: Vec<String> = get("lines").split(',').map(|h| String::from_utf8((0..h.len() / 2).map(|i| u8::from_str_radix(&h[2 * i..2 * i + 2], 16).unwrap()).collect()).unwrap()).collect();
+            let ls: Vec<&str> = ls.iter().map(String::as_str).collect();
+            match handlerlist(&ls) { Some(m) => { println!("WITNESS {m}"); std::process::exit(1) } None => { println!("OK witness no longer fails"); std::process::exit(0) } }
+        }
         if w.starts_with("ctor") {
             let key = w.split(" expected=").next().unwrap_or("").to_string();
             let (_, f) = check_ctors();
@@ -134,6 +162,19 @@ fn main() {
             }
         } }
     }
+    // what the handler sees: consumed fields of every spelling and value, once or repeated, among other fields
+    let consumed = ["Expect: 100-continue", "expect: 100-Continue", "EXPECT: 200-ok", "expect:", "Content-Type: text/plain", "content-type: x/y; q=1", "CONTENT-TYPE:",
+        "Transfer-Encoding: chunked", "transfer-encoding: gzip", "Transfer-Encoding: gzip, chunked"];
+    let kept = ["A: 1", "b: 2", "Cookie: k=v", "content-length: 0", "Expected: no", "x-expect: 100-continue"];
+    for c1 in consumed { for pos in 0..=2usize {
+        let mut l: Vec<&str> = vec![kept[0], kept[1]]; l.insert(pos, c1);
+        n += 1; if let Some(m) = handlerlist(&l) { if found.len() < 5 { found.push(m) } }
+        for c2 in consumed { for pos2 in [0usize, 3] {
+            let mut l2 = l.clone(); l2.insert(pos2, c2);
+            n += 1; if let Some(m) = handlerlist(&l2) { if found.len() < 5 { found.push(m) } }
+        } }
+    } }
+    { let all: Vec<&str> = kept.to_vec(); n += 1; if let Some(m) = handlerlist(&all) { if found.len() < 5 { found.push(m) } } }
     let (cn, cf) = check_ctors();
     n += cn;
     found.extend(cf);
